@@ -90,6 +90,18 @@ def _mix_case():
     return {"funcs": [f, g, h], "inputs": [["x0", {"arr": [[2], [_in("x0", [i]) for i in range(2)]]}]], "input_kinds": {"x0": "array"}, "internal": [], "sizes": {}}
 
 
+def _dflt(name, n):
+    return {"arr": [[n], [{"f": "dflt", "k": [["n", {"s": name}], ["at", {"arr": [[1], [q]]}]]} for q in range(n)]]}
+
+
+def _seq_default_case(suffix, tail):
+    """Sequence-valued elements (terms.SEQ_SUFFIX: every stored cell / dict entry holds a tuple, a list or a 1-D array) of a two-output
+    mapped function whose mapped root has a default of ANOTHER length and is supplied as well; then a reduction that returns a sequence."""
+    f = _func("f0" + suffix, ["x0"], ["y0a", "y0b"], {"inputs": [["x0", ["i"]]], "outputs": [["y0a", ["i"]], ["y0b", ["i"]]]}, defaults=[["x0", _dflt("x0", 3)]])
+    g = _func("f1" + tail, ["y0a"], ["y1"])
+    return {"funcs": [f, g], "inputs": [["x0", {"arr": [[2], [_in("x0", [i]) for i in range(2)]]}]], "input_kinds": {"x0": "list"}, "internal": [], "sizes": {}}
+
+
 # past failures first: DF-14 (every window of the pinned write protocol, file_array and dict), DF-33, DF-22
 CORPUS = [
     {"desc": _design_case(3), "storage": "file_array", "mode": "seq", "picker": []},
@@ -97,6 +109,10 @@ CORPUS = [
     {"desc": _picker_case(), "storage": "file_array", "mode": "seq", "picker": ["f0"]},
     {"desc": _tuple_case(), "storage": "file_array", "mode": "seq", "picker": []},      # an element with one of two outputs stored is re-run
     {"desc": _mix_case(), "storage": "file_array", "other": ["f1"], "mode": "seq", "picker": []},   # per-output storage mix: y0 in files, y1 in a dict
+    # sequence-valued elements + a supplied mapped root that also has a default (values read back from the folder are `terms.enc`'d and fed
+    # into the model: `crashfs.canon` must be idempotent on them)
+    {"desc": _seq_default_case("_nd", "_pair"), "storage": "file_array", "mode": "seq", "picker": []},
+    {"desc": _seq_default_case("_lst", "_nd"), "storage": "dict", "mode": "seq", "picker": []},
 ]
 
 
@@ -149,7 +165,7 @@ def body_orders(case, model_calls_, real):
     generation) in which the pool really started the bodies (order of the `call` events of the real trace)."""
     p, _ = mapgen.build(case["desc"])
     gens = [[f.__name__ for f in gen] for gen in p.topological_generations.function_lists]
-    key = lambda fn, kw: json.dumps([fn, sorted(([k, terms.canon(v)] for k, v in kw), key=lambda kv: kv[0])])  # noqa: E731
+    key = lambda fn, kw: json.dumps([fn, sorted(([k, crashfs.canon(v)] for k, v in kw), key=lambda kv: kv[0])])  # noqa: E731
     rcalls = [json.dumps([e[1], e[2]]) for e in real if e[0] == "call"]
     orders = []
     for g in gens:
@@ -221,7 +237,7 @@ class Lab:
 
 
 def canon_calls(calls):
-    return sorted(([n, sorted(([k, terms.canon(v)] for k, v in kw), key=lambda kv: kv[0])] for n, kw in calls), key=repr)
+    return sorted(([n, sorted(([k, crashfs.canon(v)] for k, v in kw), key=lambda kv: kv[0])] for n, kw in calls), key=repr)
 
 
 def model_calls(run):
@@ -255,6 +271,10 @@ def judge_resume(ctx, case, history, fs_abs, impl, impl_calls, after_abs, full, 
         return
     complete = {p for p, c in files.items() if c != "P"}
     impl_c = canon_calls(impl_calls)
+    # a call is identified by (function, keyword values); elements whose keyword values coincide (an upstream interpreted constant
+    # function: `y0[i, k]` all "" next to `x1[i]`) are indistinguishable in the call log, so they are counted per group: more calls than
+    # elements of the group that were NOT completely stored means a stored one was recomputed
+    groups = {}
     for fn, li, kw in full["model_calls"]:
         f = next(x for x in case["desc"]["funcs"] if x["name"] == fn)
         mapped = bool(f["mapspec"] and f["mapspec"]["inputs"])
@@ -262,9 +282,18 @@ def judge_resume(ctx, case, history, fs_abs, impl, impl_calls, after_abs, full, 
             paths = [json.dumps(["dictArr", o]) for o in f["outputs"]]      # stored = the persisted dict of every output exists
         else:
             paths = [json.dumps(["cell", o, li] if mapped else ["single", o]) for o in f["outputs"]]
-        if all(p in complete for p in paths) and canon_calls([[fn, kw]])[0] in impl_c:
-            ctx.violation(rec, f"`{fn}` was called again for element {li} although all its outputs were completely stored", impl={"calls": impl_c},
-                          key="recomputed stored element")
+        g = groups.setdefault(json.dumps(canon_calls([[fn, kw]])[0]), {"fn": fn, "stored": [], "open": 0})
+        if all(p in complete for p in paths):
+            g["stored"].append(li)
+        else:
+            g["open"] += 1
+    ncalls = {}
+    for c in impl_c:
+        ncalls[json.dumps(c)] = ncalls.get(json.dumps(c), 0) + 1
+    for key, g in groups.items():
+        if g["stored"] and ncalls.get(key, 0) > g["open"]:
+            ctx.violation(rec, f"`{g['fn']}` was called again for element {g['stored'][0]} although all its outputs were completely stored",
+                          impl={"calls": impl_c}, key="recomputed stored element")
             return
     if data_files(after_abs) != full["files"]:
         a, b = data_files(after_abs), full["files"]
@@ -277,7 +306,7 @@ def judge_resume(ctx, case, history, fs_abs, impl, impl_calls, after_abs, full, 
         ctx.violation(rec, f"the model's resume fails ({mres['err']}) where the implementation completes", found_input=False,
                       item="correspondence:resume-status", impl=impl, model=mres)
         return
-    if {k: terms.canon(v) for k, v in mres["outputs"]} != got:
+    if {k: crashfs.canon(v) for k, v in mres["outputs"]} != got:
         ctx.violation(rec, "model and implementation disagree on the resumed outputs", found_input=False, item="correspondence:resume-outputs")
         return
     if model_calls(model) != impl_c:
@@ -382,7 +411,7 @@ def check_all(ctx, lab, cases, second=0, max_states=None, max_raises=None, secon
         same = real == model_ev if mode == "seq" else sorted(map(json.dumps, real)) == sorted(map(json.dumps, model_ev))
         ctx.record(rec_of(case, [{"kind": "trace"}]), True, validated=True)
         ctx.count("trace-events", len(real))
-        if {k: terms.canon(v) for k, v in fr["result"]["outputs"]} != t["full"]["outputs"]:
+        if {k: crashfs.canon(v) for k, v in fr["result"]["outputs"]} != t["full"]["outputs"]:
             ctx.violation(rec0, "model and implementation disagree on the uninterrupted outputs", found_input=False, item="correspondence:outputs")
             continue
         if not same:
@@ -423,7 +452,8 @@ def check_all(ctx, lab, cases, second=0, max_states=None, max_raises=None, secon
         pts = crashfs.crash_points(ev0)
         ms = case.get("max_states") or max_states
         if ms and len(pts) > ms:
-            pts = [pts[i] for i in sorted(ctx.rng.sample(range(len(pts)), ms))]
+            # the last point (nothing lost: the COMPLETE folder is resumed, every stored value is read back) is always kept
+            pts = [pts[i] for i in sorted(ctx.rng.sample(range(len(pts) - 1), ms - 1))] + [pts[-1]]
         for k, tear in pts:
             jobs.append((t, [kill_hist(ev0, f0, k, tear)], lab.pool.submit(resume_state, lab, case, [(ev0, k, tear, f0)])))
         t["raise_jobs"] = []
